@@ -71,14 +71,14 @@ def run(ctx, wd, pid='C01'):
     env_mod, _ = schedrun.load()
     consts = {'Tasks': frozenset(ctx.pick({'t1'}, {'t1', 't2'})), 'Keys': frozenset({'a', 'b'}), 'Leaves': frozenset({'x', 'y'}), 'MaxOps': 2}
     cfg = tlc.write_cfg(os.path.join(wd, 'envops.cfg'), constants=consts,
-                        invariants=['ApplyMakesReadable', 'ApplyLosesNothing', 'ApplyRaisesOnlyOnClash'], deadlock=False)
+                        invariants=['ApplyMakesReadable', 'ApplyLosesNothing', 'ApplyReplacesLeafByMapping'], deadlock=False)
     dump = os.path.join(wd, 'envops')
     res = tlc.run(SPEC, cfg, dump=dump)
     ctx.tlc(res, 'EnvOps/histories')
     if not res.ok:
         raise tlc.MachineryError('EnvOps.tla: %s' % (res.violation,))
     tlc.check_coverage(res, ['Apply', 'SetStatus', 'GetStatus'], 'EnvOps')
-    for wit in ('W_Nested', 'W_Raised'):
+    for wit in ('W_Nested', 'W_Replaced'):
         c2 = tlc.write_cfg(os.path.join(wd, wit + '.cfg'), constants=consts, invariants=[wit], deadlock=False)
         if tlc.run(SPEC, c2, coverage=False).violation != ('invariant', wit):
             raise tlc.MachineryError('witness %s not reachable in EnvOps.tla' % wit)
